@@ -27,6 +27,7 @@ META["explanation"] += " R06.7 every Poll::Pending the vector streams build is d
 META["explanation"] += " R06.1 a snapshot that is attached only conditionally (Option, bool::then, a helper returning Option) is VIOLATED, not undecided. R06.3 is judged on the streams' poll_next with private helpers and map-closures spliced in. R06.4's exit clause is stated on the drain loop (the cycle through try_recv is left only over Empty / Closed edges). R06.8 a stream that keeps a buffer of diffs next to its receiver empties it on the path that produces a Reset."
 META["explanation"] += ' R06.3 now covers the whole crate (a Reset made up by a mutator or by commit is a violation).'
 META["explanation"] += ' R06.6 lag-distinguished now covers every receive site of the crate (a helper that drains the receiver when the subscriber is converted must examine the error for Lagged as well - tokio reports a lag once).'
+META["explanation"] += ' R06.1 a broadcast message without the contents field is a violation (the Reset state would be read at another moment than the send).'
 
 SHRINKING = r"bin:(Div|Sub|Shr|Rem)|::(min|saturating_sub|checked_sub|wrapping_sub|div_ceil|checked_div|isqrt|ilog2|ilog10)$"
 
@@ -76,6 +77,11 @@ def r06_1(ctx):
         b = inl(F, f)
         for loc, rv in message_aggs(b):
             n += 1
+            if "state" not in rv["fields"]:
+                ctx.violated("R06.1", f, "state=contents", b.line_at(loc),
+                             "the broadcast message no longer carries the contents after the mutation: whatever a lagging subscriber is reset to is then read at another moment than the send "
+                             "(e.g. from a shared field after draining the channel) - an update that lands in between is contained in the Reset *and* delivered as a diff again, or missing from both")
+                continue
             e = b.expr_of_op(rv["ops"][rv["fields"].index("state")])
             x = strip(e)
             ok = x[0] == "field" and x[2] == "values" and contains(x[1], lambda y: y[0] == "param" and y[1] == 1) and not mentions_field(x[1], "inner") \
@@ -126,6 +132,9 @@ def commit_state(ctx):
                  and place_chain(strip(b.expr_of_op(t["args"][0])))[-1:] == ["values"] and "inner" not in place_chain(strip(b.expr_of_op(t["args"][0])))]
         for loc, rv in message_aggs(b):
             n += 1
+            if "state" not in rv["fields"]:
+                ctx.violated("R06.1", f, "commit-state", b.line_at(loc), "the message published by commit carries no contents: a lagging subscriber cannot be reset to the committed state")
+                continue
             e = b.expr_of_op(rv["ops"][rv["fields"].index("state")])
             x = strip(e)
             clones = find_all(e, lambda y: y[0] == "call" and ecall_matches(y, r"Clone>?::clone$"))
